@@ -16,11 +16,11 @@ package checks
 // reads legitimately waiting.
 
 import (
-	"strings"
 	"fmt"
 	"io"
 	"net"
 	"os"
+	"strings"
 	"syscall"
 	"time"
 
@@ -60,6 +60,8 @@ type c17Env struct {
 	bigs       int
 	flushes    []*wsCall
 	rawT       bool
+	objfd      int  // the descriptor behind the adapter
+	cleanRead  bool // the read in flight was started with nothing queued or in flight on the write side
 }
 
 // c17Raw is an io.ReadWriter on the raw non-blocking descriptor: Write reports what the kernel took (possibly
@@ -108,6 +110,7 @@ func (e *c17Env) startRead(msg bool) {
 	}
 	e.reads = append(e.reads, c)
 	e.readInfl = c
+	e.cleanRead = !e.writeInFlight() && e.ws.Pending() == 0 && len(e.flushes) == 0
 	e.x.Note("start %s#%d", c.kind, len(e.reads))
 	done := func(err error) {
 		c.calls++
@@ -256,6 +259,7 @@ func c17Body(depth int) func(x *engine.X) {
 				syscall.SetsockoptInt(int(fd), syscall.SOL_SOCKET, syscall.SO_SNDBUF, 1)
 			})
 			rw = raw
+			e.objfd = raw.fd
 		}
 		var ad *sonic.AsyncAdapter
 		sonic.NewAsyncAdapter(ioc, c.(syscall.Conn), rw, func(err error, a *sonic.AsyncAdapter) { ad = a })
@@ -341,6 +345,19 @@ func c17Body(depth int) func(x *engine.X) {
 		}
 		if len(names) > 0 {
 			x.Nontrivial()
+		}
+		// First without the peer reading: a write that is waiting for room in the send buffer stays blocked. A read that
+		// was started before it (with nothing on the write side to flush first) is registered with the poller on its
+		// own and must go on consuming what the peer sent — "application writes never swallow the continuation of a
+		// read". (No pings or close from the peer in this judgement: their replies are flushed by the read path itself,
+		// which may rightly wait behind the blocked write.)
+		if e.rawT {
+			for i := 0; i < 60 && kern.Readable(e.epfd); i++ {
+				ioc.PollOne()
+			}
+			if c := e.readInfl; c != nil && c.calls == 0 && e.cleanRead && e.pings == 0 && !e.peerClosed && e.writeInFlight() && kern.Inq(e.objfd) > 0 {
+				x.Fail("ws/read-starved-by-blocked-write", "%s was in flight before the write; the write now waits for room in the send buffer (the peer is not reading), %d bytes from the peer sit unread in the socket and the read makes no progress (actions %v)", c.kind, kern.Inq(e.objfd), names)
+			}
 		}
 		// run the loop to quiescence: the peer's bytes are in the socket; nothing else will happen
 		for i := 0; i < 400; i++ {
